@@ -219,10 +219,12 @@ func genRef(r *Rand, p *Plan, tier string, focus string) {
 		o.Filters, o.Overlap, o.V6 = true, true, true
 		o.OddScopes = r.Chance(30)
 		o.Span = r.Chance(40)
+		o.DupUsers = r.Chance(40)
 	case "C07":
 		o.OddAuth = r.Chance(30)
 		o.Keychain = true
 	case "C10", "C18":
+		o.DupUsers = focus == "C10" && r.Chance(30)
 		o.Keychain = true
 		o.OddAuth = r.Chance(15)
 		o.OddScopes = focus == "C18" && r.Chance(50)
@@ -701,7 +703,7 @@ func genC09(r *Rand, p *Plan, tier string) {
 	p.Family = "mux"
 	p.Scen.Server = "ref"
 	p.Scen.Format = PickOf(r, "yaml", "json")
-	d := GenDoc(r, DocOpts{Keychain: true})
+	d := GenDoc(r, DocOpts{Keychain: true, DupUsers: r.Chance(40)})
 	d.Normalize()
 	g := &refGen{r: r, d: d, sid: uint32(r.Intn(1 << 20))}
 	g.names, g.pws = DocUsers(d)
